@@ -33,6 +33,7 @@ def run(S):
     _dogleg(S)
     for precond_norm in (False, True):
         _cg(S, precond_norm)
+    _cg_subspace(S)
     _treigen(S)
     _bounded_cg(S)
 
@@ -198,6 +199,78 @@ def _cg(S, precond_norm):
     P.run_contract(S, 'EquationSolver.solve_trust_region_minimization[%s]' % mode,
                    lambda: ns['solve_trust_region_minimization'](x, g, H, Pc, tr, settings), pre, post,
                    file=info['file'], extra_hyps=[mC <= 0])
+
+
+def _cg_subspace(S):
+    """EquationSolverSubspace.trust_region_cg: the same truncated CG with the first preconditioned residual and its Hessian
+    image passed in by the caller (call-site preconditions Pr = P r, HPr = H Pr) and the curvature carried through the loop"""
+    fn = 'trust_region_cg'
+    label = fn + '#0'
+    ns, vc, info = P.load_module('optimism/EquationSolverSubspace.py', cuts={(fn, 0)})
+    sp = _fresh_space()
+    sp.op('H', sym=True)
+    sp.op('P', sym=True, pd=True)
+    H, Pc = P.linop('H'), P.linop('P')
+    x, g = P.AVec.atom('x'), P.AVec.atom('g')
+    tr = tm.var('trSize')
+    settings = _settings(ns)
+    cg_tol, ratio, N = settings.cg_tol, settings.cg_inexact_solve_ratio, settings.max_cg_iters
+    pre = [tr > 0, cg_tol > 0, N >= 1]
+    model = lambda z: g @ z + (z @ H(z)) / 2
+    d0 = -Pc(g)
+    a0 = d0 @ H(d0)
+    rPr0 = g @ Pc(g)
+    dd0 = d0 @ d0
+    tau0 = tr / tm.sqrt(dd0)
+    al0 = rPr0 / a0
+    mC = tm.ite(tm.and_(a0 > 0, al0 * al0 * dd0 <= tr * tr), -(rPr0 * rPr0) / (2 * a0), -tau0 * rPr0 + tau0 * tau0 * a0 / 2)
+    cgTolSq = tm.max_(cg_tol * cg_tol, ratio * ratio * (g @ g))
+
+    def havoc(live, names, ctx):
+        z, d = P.AVec.atom('z_k'), P.AVec.atom('d_k')
+        r = g + H(z)
+        Pr = Pc(r)
+        out = dict(z=z, d=d, r=r, Pr=Pr, rPr=r @ Pr, curvature=d @ H(d))
+        for k in names:
+            if k not in out:
+                v = live[k]
+                out[k] = ctx.newvar(k) if isinstance(v, tm.T) else v
+        return out
+
+    def inv(live, ctx):
+        z, d, r = live['z'], live['d'], live['r']
+        o = OD()
+        o['residual_is_gradient_of_model'] = tm.and_(*r.same_as(g + H(z)))
+        o['rPr_is_r_dot_Pr'] = tm.eq(live['rPr'], r @ Pc(r))
+        o['curvature_is_d_dot_Hd'] = tm.eq(live['curvature'], d @ H(d))
+        o['direction_is_descent_r_dot_d_eq_minus_rPr'] = tm.eq(r @ d, -live['rPr'])
+        o['residual_not_yet_small'] = r @ r >= live['cgTolSquared']
+        o['tolerance_positive'] = tm.eq(live['cgTolSquared'], cgTolSq)
+        o['iterate_inside_trust_region'] = tm.and_(z @ z <= tr * tr, d @ d > 0)
+        o['model_at_most_cauchy_value'] = model(z) <= mC
+        return o
+    vc.loops[label] = P.LoopSpec(inv, havoc, peel=True)
+
+    def post(res, ctx):
+        step, stype, iters = res
+        o = OD()
+        nrm2 = step @ step
+        o['inside_trust_region'] = nrm2 <= tr * tr
+        if stype in (ns['boundaryString'], ns['negCurveString']):
+            o['boundary_or_negative_curvature_step_has_norm_radius'] = tm.eq(nrm2, tr * tr)
+        o['never_increases_model'] = model(step) <= 0
+        entered = not (isinstance(iters, int) and iters == 0)
+        if entered:
+            o['reduces_model_at_least_as_much_as_cauchy_step'] = model(step) <= mC
+        if stype == ns['interiorString']:
+            res_ = g + H(step)
+            o['interior_step_solves_newton_system_to_tolerance'] = res_ @ res_ < cgTolSq
+        return o
+    gram0 = [rPr0 >= 0, dd0 >= 0, tm.implies(g @ g > 0, rPr0 > 0), tm.implies(rPr0 > 0, dd0 > 0)]
+    q = 'EquationSolverSubspace.trust_region_cg'
+    S.add(q + '/lemma_cauchy_value_nonpositive', pre + gram0, mC <= 0)
+    S.add(q + '/lemma_gram_facts_dd0', pre + [d0 @ d0 >= 0, rPr0 >= 0, tm.implies(g @ g > 0, rPr0 > 0), (g @ d0) * (g @ d0) <= (g @ g) * (d0 @ d0), tm.eq(g @ d0, -rPr0)], tm.and_(*gram0))
+    P.run_contract(S, q, lambda: ns[fn](x, g, Pc(g), H(Pc(g)), H, Pc, tr, settings), pre, post, file=info['file'], extra_hyps=[mC <= 0])
 
 
 # ---------------------------------------------------------------------------
